@@ -98,6 +98,30 @@ func canonical() []runCase {
 	add("floydwarshall", []int{96, 3}, cd(2, true, false))              // 12 x 12 = 144
 	add("lenet", []int{1, 1, 1}, g(2, true, false))                     // tall gemm / transpose grids of the layers
 	add("minerva", []int{1, 1, 1}, g(4, true, false))                   // 784x256 layer: 16 x 49 gemm grid and its transposes
+	// gcn3/r9nano timing, DMA copy path: workloads that launch several kernels
+	// and / or copy between host and device between launches (kmeans uploads
+	// new centroids before every iteration: a kernel reads a buffer through
+	// scalar loads, the host overwrites it, the next kernel reads it again).
+	// Sizes stay outside the quarantined stale-L1 regions. All must verify.
+	add("kmeans", []int{8, 2, 2, 4}, tm(g(1, false, false)))
+	add("kmeans", []int{64, 4, 3, 5}, tm(g(1, false, false)))
+	add("kmeans", []int{100, 4, 3, 3}, tm(g(1, false, false)))
+	add("kmeans", []int{8, 2, 2, 4}, tm(g(2, true, false)))
+	add("kmeans", []int{100, 4, 3, 3}, tm(g(4, true, false)))
+	add("kmeans", []int{260, 8, 5, 2}, tm(g(2, false, false)))
+	add("bfs", []int{64, 3}, tm(g(1, false, false)))
+	add("bfs", []int{64, 3}, tm(g(2, true, false)))
+	add("pagerank", []int{16, 64, 3}, tm(g(1, false, false)))
+	add("floydwarshall", []int{16, 0}, tm(g(2, true, false)))
+	add("nw", []int{128}, tm(g(1, false, false)))
+	add("fastwalshtransform", []int{512}, tm(g(1, false, false)))
+	add("bitonicsort", []int{128}, tm(g(2, true, false)))
+	add("stencil2d", []int{32, 64, 2}, tm(g(1, false, false)))
+	add("nbody", []int{256, 2}, tm(g(1, false, false)))
+	add("atax", []int{33, 33}, tm(g(1, false, false)))
+	add("bicg", []int{33, 70}, tm(g(1, false, false)))
+	add("conv2d", []int{1, 1, 8, 8, 2, 3, 1, 1, 1}, tm(g(1, false, false))) // 16 kernels, copies between them
+	add("im2col", []int{1, 2, 9, 9, 3, 1, 2, 1}, tm(g(1, false, false)))
 	// timing platforms
 	add("fir", []int{1024, 16}, tm(g(1, false, false)))
 	add("matrixtranspose", []int{128}, tm(g(1, false, false)))
